@@ -22,6 +22,8 @@ type Pool struct {
 	N       int
 	Guard   time.Duration
 	Env     []string
+	Bin     string // worker binary (default: this executable)
+	Capture bool   // keep the tail of a worker's stderr and attach it to the error when it dies
 	tasks   chan poolTask
 	wg      sync.WaitGroup
 	started bool
@@ -47,17 +49,49 @@ type worker struct {
 	cmd *exec.Cmd
 	in  io.WriteCloser
 	out *bufio.Reader
+	err *tailBuf
+}
+
+// tailBuf keeps the last bytes written to it.
+type tailBuf struct {
+	mu  sync.Mutex
+	buf []byte
+}
+
+func (t *tailBuf) Write(p []byte) (int, error) {
+	t.mu.Lock()
+	defer t.mu.Unlock()
+	t.buf = append(t.buf, p...)
+	if len(t.buf) > 1<<16 {
+		t.buf = t.buf[len(t.buf)-1<<15:]
+	}
+	return len(p), nil
+}
+
+func (t *tailBuf) String() string {
+	t.mu.Lock()
+	defer t.mu.Unlock()
+	return string(t.buf)
 }
 
 func (p *Pool) spawn() (*worker, error) {
-	self, err := os.Executable()
-	if err != nil {
-		return nil, err
+	self := p.Bin
+	if self == "" {
+		var err error
+		if self, err = os.Executable(); err != nil {
+			return nil, err
+		}
 	}
 	cmd := exec.Command(self, "worker", p.Engine)
 	cmd.Env = append(os.Environ(), "GOMAXPROCS=2", "GOGC=200")
 	cmd.Env = append(cmd.Env, p.Env...)
-	cmd.Stderr = os.Stderr
+	var tb *tailBuf
+	if p.Capture {
+		tb = &tailBuf{}
+		cmd.Stderr = tb
+	} else {
+		cmd.Stderr = os.Stderr
+	}
 	in, err := cmd.StdinPipe()
 	if err != nil {
 		return nil, err
@@ -69,13 +103,13 @@ func (p *Pool) spawn() (*worker, error) {
 	if err := cmd.Start(); err != nil {
 		return nil, err
 	}
-	return &worker{cmd: cmd, in: in, out: bufio.NewReaderSize(out, 1<<20)}, nil
+	return &worker{cmd: cmd, in: in, out: bufio.NewReaderSize(out, 1<<20), err: tb}, nil
 }
 
 func (w *worker) kill() {
 	_ = w.in.Close()
 	_ = w.cmd.Process.Kill()
-	_, _ = w.cmd.Process.Wait()
+	_ = w.cmd.Wait()
 }
 
 func (p *Pool) Start() {
@@ -110,6 +144,14 @@ func (p *Pool) Start() {
 	}
 }
 
+// DiedError is returned (with Capture) when the worker process exited while handling a task.
+type DiedError struct {
+	Stderr string
+	Exit   int
+}
+
+func (d *DiedError) Error() string { return fmt.Sprintf("worker exited with code %d", d.Exit) }
+
 // ErrHung is returned when a task exceeded the guard.
 var ErrHung = fmt.Errorf("worker exceeded the per-task guard")
 
@@ -134,6 +176,10 @@ func (p *Pool) roundTrip(w *worker, in any) (json.RawMessage, error) {
 	select {
 	case r := <-ch:
 		if r.err != nil {
+			if w.err != nil {
+				_ = w.cmd.Wait()
+				return nil, &DiedError{Stderr: w.err.String(), Exit: w.cmd.ProcessState.ExitCode()}
+			}
 			return nil, fmt.Errorf("worker died: %w", r.err)
 		}
 		return json.RawMessage(r.line), nil
